@@ -24,6 +24,7 @@ pub struct E2 {
     fixed: Option<PathBuf>,
     mark: Option<std::fs::File>,
     opts: Option<Options>,
+    cache_cap: u64,
     clock: Option<Arc<fe::ManualClock>>,
     tree: Option<Tree>,
     txs: BTreeMap<u32, Tx>,
@@ -124,7 +125,7 @@ fn parse_opts(path: PathBuf, s: &str) -> Options {
 impl E2 {
     pub fn new() -> Self {
         let rt = tokio::runtime::Builder::new_multi_thread().worker_threads(2).enable_all().build().unwrap();
-        E2 { rt, dir: tempfile::tempdir().unwrap(), fixed: None, mark: None, opts: None, clock: None, tree: None, txs: BTreeMap::new(), cur_owner: BTreeMap::new() }
+        E2 { rt, dir: tempfile::tempdir().unwrap(), fixed: None, mark: None, opts: None, cache_cap: 1 << 20, clock: None, tree: None, txs: BTreeMap::new(), cur_owner: BTreeMap::new() }
     }
     pub fn path(&self) -> PathBuf {
         match &self.fixed {
@@ -229,6 +230,10 @@ impl E2 {
                 let p = self.path();
                 let mut opts = parse_opts(p, o);
                 self.clock = Some(fe::install_manual_clock(&mut opts));
+                self.cache_cap = o
+                    .split(',')
+                    .find_map(|kv| kv.strip_prefix("cache=").map(|v| v.parse::<u64>().unwrap()))
+                    .unwrap_or(1 << 20);
                 self.opts = Some(opts);
                 self.open_tree()
             }
@@ -526,7 +531,9 @@ impl E2 {
                 if let Err(e) = copy_dir(&src, &dst) {
                     return format!("err:copy:{}", e);
                 }
-                let mut o = self.opts.clone().unwrap();
+                // a cloned Options shares its block cache (keyed by table id and offset only) with the
+                // running store: the second store gets a cache of its own
+                let mut o = self.opts.clone().unwrap().with_block_cache_capacity(self.cache_cap);
                 o.path = dst.clone();
                 let _g = self.rt.enter();
                 let t = match TreeBuilder::with_options(o).build() {
